@@ -125,6 +125,7 @@ void verif_throw(void){ longjmp(jb, 1); }
 void verif_overflow(void){ longjmp(jb, 2); }
 void verif_abort(void){ longjmp(jb, 3); }
 void verif_unsupported(void){ longjmp(jb, 4); }
+void verif_oob(void){ longjmp(jb, 5); }
 int32_t k_fact_signed(const char*, unsigned); int32_t k_fact_unsigned(const char*, unsigned);
 int32_t k_can_signed(const char*, unsigned); int32_t k_can_unsigned(const char*, unsigned);
 int32_t k_text_signed(const char*, unsigned); int32_t k_text_unsigned(const char*, unsigned);
@@ -164,7 +165,7 @@ MODEL_VALID = r'''
 #include <cstdlib>
 #include <csetjmp>
 static jmp_buf jb;
-extern "C" { void verif_throw(){ longjmp(jb, 1); } void verif_overflow(){ longjmp(jb, 2); } void verif_abort(){ longjmp(jb, 3); } void verif_unsupported(){ longjmp(jb, 4); } }
+extern "C" { void verif_throw(){ longjmp(jb, 1); } void verif_overflow(){ longjmp(jb, 2); } void verif_abort(){ longjmp(jb, 3); } void verif_unsupported(){ longjmp(jb, 4); } void verif_oob(){ longjmp(jb, 5); } }
 extern "C" int64_t k_model(int which, const char* s, unsigned len, int base, uint64_t* idx);
 static long long bad = 0, n = 0;
 static void one(const char* s, unsigned len){
@@ -214,6 +215,7 @@ void verif_throw(void){ VASSERT(!g_must, "a complete, valid, in-range literal is
 void verif_overflow(void){ __CPROVER_assert(0, "bounded string capacity exceeded (bound too small)"); __CPROVER_assume(0); }
 void verif_abort(void){ VASSERT(0, "assert()/abort reached: the loader crashes on this field"); __CPROVER_assume(0); }
 void verif_unsupported(void){ __CPROVER_assert(0, "construct outside the modelled fragment reached"); __CPROVER_assume(0); }
+void verif_oob(void){ VASSERT(0, "string indexed beyond its size (undefined behaviour in the real std::string)"); __CPROVER_assume(0); }
 #include "num_k.c"
 uint8_t nondet_u8(void); unsigned nondet_uint(void);
 /* ---------------- independent recogniser (written from the grammar; wide accumulation) ----------------
@@ -402,6 +404,8 @@ def _prepare(work):
     gen = os.path.join(work, "num_gen_native.c")
     open(gen, "w").write('#define __dso_handle verif_dso_handle_\n#include "num_k.c"\n')
     nlines = K.differential(work, drv, gen, cpp, extra_cxx=["-fno-exceptions", "-I", K.HERE] + cap, runs=[("1",), ("77",)])
+    if nlines < 1000:
+        raise EngineError("differential driver produced only %d lines (crash?)" % nlines)
     # the sto* model against the real libstdc++
     mv = os.path.join(work, "model_valid.cpp")
     open(mv, "w").write(MODEL_VALID)
@@ -452,6 +456,8 @@ _REPLAY = {}
 
 def _replay_exe(work):
     """g++ build of the real ReadStreamCSV / StringUtil replay program (built on first use)"""
+    if "error" in _REPLAY:
+        raise EngineError(_REPLAY["error"])
     if "exe" not in _REPLAY or not os.path.exists(_REPLAY["exe"]):
         rp = os.path.join(work, "replay.cpp")
         open(rp, "w").write(REPLAY)
@@ -462,6 +468,13 @@ def _replay_exe(work):
             raise EngineError("native replay build (real ReadStreamCSV/StringUtil) failed:\n" + err[-2000:])
         _REPLAY["exe"] = rexe
     return _REPLAY["exe"]
+
+
+def _try_build(work):
+    try:
+        _replay_exe(work)
+    except EngineError as e:
+        _REPLAY["error"] = str(e)
 
 
 def native_verdict(rexe, kind, b):
@@ -493,11 +506,15 @@ def run(tier, seed, only=None):
     work = common.scratch_dir("c18")
     thorough = tier == "thorough"
     try:
+        import threading
+        _REPLAY.clear()
+        bt = threading.Thread(target=lambda: _try_build(work))   # real-code replay binary is built while the solver runs
+        bt.start()
         nlines, nmodel, rexe, sl = _prepare(work)
         hfile = os.path.join(work, "num_h.c")
         # (kind, L, shape, classes): one obligation per input class (class 0 = everything not in a reported class = the proof of the rest)
         if not thorough:
-            cfgs = [(0, 5, "", [None]), (1, 5, "", [0, 1, 2, 3]), (1, 11, "digits", [0, 3, 4]), (0, 12, "digits", [None])]
+            cfgs = [(1, 10, "digits", [4, 0]), (0, 11, "digits", [None]), (1, 5, "", [2, 3, 1, 0]), (0, 5, "", [None])]
         else:
             cfgs = [(0, 8, "", [None]), (1, 8, "", [0, 1, 2, 3]), (2, 6, "", [0, 2]), (3, 6, "", [0, 2, 3]),
                     (1, 12, "digits", [0, 3, 4]), (0, 12, "digits", [None]), (1, 12, "hex", [0, 4]), (2, 12, "hex", [None]),
@@ -521,6 +538,7 @@ def run(tier, seed, only=None):
                                          meta={"kind": KINDS[kind], "L": length, "alphabet": {"": "all 256 byte values", "digits": "ws? sign? digits", "hex": "sign? 0x hexdigits"}[shape],
                                                "input_class": CLASSES[cls] if cls is not None else "all", "_kind": kind}))
         K.run_all(obls, jobs=6)
+        bt.join()
         found = {}
         for o in obls:
             if o.verdict == "holds":
